@@ -133,7 +133,16 @@ func runScenario(sc scen, rng *rand.Rand) []rec.Event {
 	log.SetFlags(0)
 	log.SetOutput(lb)
 	evs := runScenarioLogged(sc, rng, lb)
-	return append(evs, rec.Event{"op": "Drops", "n": strings.Count(lb.String(), "port buffer full - dropping frame")})
+	// the dial's cancellation watcher sending a disconnect frame although the harness cancels the dial context only after
+	// DialContext has returned (diagnostic)
+	dialOK := false
+	for _, e := range evs {
+		if e["op"] == "Api" && (e["call"] == "Dial" || e["call"] == "Dial/two-connections") && e["ok"] == true && e["err"] == "<nil>" {
+			dialOK = true
+		}
+	}
+	return append(evs, rec.Event{"op": "Drops", "n": strings.Count(lb.String(), "port buffer full - dropping frame"), "dialok": dialOK,
+		"latecancel": strings.Count(lb.String(), "context cancellation - sending disconnect frame")})
 }
 
 func runScenarioLogged(sc scen, rng *rand.Rand, lb *lockedBuf) []rec.Event {
@@ -831,7 +840,7 @@ func Main(args []string) int {
 			case <-time.After(60 * time.Second):
 				cmd.Process.Kill()
 				results[i] = []rec.Event{{"op": "Crash", "site": "scenario did not finish within 60 s", "hung": true},
-					{"op": "Drops", "n": strings.Count(stderr.String(), "DROP\n")}}
+					{"op": "Drops", "n": strings.Count(stderr.String(), "DROP\n"), "dialok": false, "latecancel": 0}}
 				return
 			}
 			for _, l := range strings.Split(stdout.String(), "\n") {
